@@ -94,3 +94,14 @@ uint8_t* ll_memchr(uint8_t* a, uint32_t c, uint64_t n) { for (uint64_t i = 0; i 
 uint8_t* ll_strchr(uint8_t* s, uint32_t c) { for (;; s++) { if (*s == (uint8_t)c) return s; if (!*s) return 0; } }
 uint32_t ll_strncmp(uint8_t* a, uint8_t* b, uint64_t n) { for (uint64_t i = 0; i < n; i++) { if (a[i] != b[i]) return a[i] < b[i] ? (uint32_t)-1 : 1; if (!a[i]) return 0; } return 0; }
 uint32_t ll_strcmp(uint8_t* a, uint8_t* b) { for (uint64_t i = 0;; i++) { if (a[i] != b[i]) return a[i] < b[i] ? (uint32_t)-1 : 1; if (!a[i]) return 0; } }
+/* std::list node splicing (libstdc++ src/c++98/list.cc), pointer-for-pointer */
+struct ll_lnb { uint8_t* next; uint8_t* prev; };
+#define LNB(p) ((struct ll_lnb*)(p))
+void _ZNSt8__detail15_List_node_base7_M_hookEPS0_(uint8_t* self, uint8_t* pos) {
+  LNB(self)->next = pos; LNB(self)->prev = LNB(pos)->prev; LNB(LNB(pos)->prev)->next = self; LNB(pos)->prev = self; }
+void _ZNSt8__detail15_List_node_base9_M_unhookEv(uint8_t* self) {
+  uint8_t* n = LNB(self)->next; uint8_t* p = LNB(self)->prev; LNB(p)->next = n; LNB(n)->prev = p; }
+void _ZNSt8__detail15_List_node_base11_M_transferEPS0_S1_(uint8_t* self, uint8_t* first, uint8_t* last) {
+  if (self != last) {
+    LNB(LNB(last)->prev)->next = self; LNB(LNB(first)->prev)->next = last; LNB(LNB(self)->prev)->next = first;
+    uint8_t* tmp = LNB(self)->prev; LNB(self)->prev = LNB(last)->prev; LNB(last)->prev = LNB(first)->prev; LNB(first)->prev = tmp; } }
